@@ -246,15 +246,7 @@ def _c09():
 
 
 def _result(ex, t, form):
-    d = ex.stats.as_counts()
-    d["capped"] = ex.capped
-    return {
-        "counts": d,
-        "violations": ex.violations,
-        "errors": ex.stats.errors[:3],
-        "sample": {"formula": show(t, lambda i: f"E{i}"), "form": form,
-                   "states": ex.stats.states, "transitions": ex.stats.transitions},
-    }
+    return v2x.result_of(ex, {"formula": show(t, lambda i: f"E{i}"), "form": form})
 
 
 def tasks(tier):
